@@ -75,13 +75,24 @@ def c1_runs(tier):
 
     def add(name, consts, classes, weighted, control=False):
         runs.append({"name": name, "consts": consts, "classes": classes, "weighted": weighted, "control": control})
-    add("trees2-weighted", O.tree_consts(2, W, W, {1, 2}, {1, 2}), ALL5, True)
-    add("trees3-weighted", O.tree_consts(3, W, W, {1, 2}, {1, 2}, checkdefs=True), ORD3 if tier != "quick" else ["sorted", "rotated-nodelist"], True)
-    add("trees4-unit", O.tree_consts(4, {1}, {1}, {1, 2}, {1, 2}, checkdefs=True), ALL5, False)
     s4 = tree_shapes(4)
+    if tier == "quick":
+        # ~12 000 ODE solves: the budget of the quick tier (about 10 ms each)
+        add("trees2-weighted", O.tree_consts(2, W, W, {1, 2}, {1, 2}), ALL5, True)
+        add("trees3-weighted", O.tree_consts(3, W, W, {1, 2}, {1}, checkdefs=True), ["sorted", "rotated-nodelist"], True)
+        add("trees4-unit", O.tree_consts(4, {1}, {1}, {1, 2}, {1}, checkdefs=True), ["sorted", "rotated-insertion", "rotated-nodelist", "direct"], False)
+        add("shape4.0-weighted", O.tree_consts(4, W, W, {2}, {1}, shape=O.shape_of_edges(4, s4[0])), ["sorted"], True)
+        add("shape4.1-edgeweighted", O.tree_consts(4, W, {1}, {2}, {1}, shape=O.shape_of_edges(4, s4[1])), ["sorted"], True)
+        for i, edges in enumerate(tree_shapes(5)):
+            add("shape5.%d-unit" % i, O.tree_consts(5, {1}, {1}, {2}, {1}, shape=O.shape_of_edges(5, edges)), ["sorted", "rotated-nodelist"], False)
+        add("cyclic3-unit", O.tree_consts(3, {1}, {1}, {1, 2}, {1}, cyclic=True), ["sorted"], False, control=True)
+        add("cyclic4-unit", O.tree_consts(4, {1}, {1}, {2}, {1}, cyclic=True), ["sorted"], False, control=True)
+        return runs
+    add("trees2-weighted", O.tree_consts(2, W, W, {1, 2}, {1, 2}), ALL5, True)
+    add("trees3-weighted", O.tree_consts(3, W, W, {1, 2}, {1, 2}, checkdefs=True), ORD3, True)
+    add("trees4-unit", O.tree_consts(4, {1}, {1}, {1, 2}, {1, 2}, checkdefs=True), ALL5, False)
     for i, edges in enumerate(s4):
-        taus, gams = ({2}, {1}) if tier == "quick" else ({1, 2}, {1, 2})
-        add("shape4.%d-weighted" % i, O.tree_consts(4, W, W, taus, gams, shape=O.shape_of_edges(4, edges)), ["sorted"], True)
+        add("shape4.%d-weighted" % i, O.tree_consts(4, W, W, {1, 2}, {1, 2}, shape=O.shape_of_edges(4, edges)), ["sorted"], True)
     for i, edges in enumerate(tree_shapes(5)):
         add("shape5.%d-unit" % i, O.tree_consts(5, {1}, {1}, {1, 2}, {1, 2}, shape=O.shape_of_edges(5, edges)),
             ["sorted", "rotated-nodelist"], False)
@@ -325,6 +336,12 @@ def _graph_keys(sg, n, tier, unit_only, representatives):
     return out
 
 
+def _quick_subset(keys, step):
+    """the unit-weight graphs and every step-th weighted one (deterministic)"""
+    unit = [k for k in keys if all(x in (0, 1) for x in k[0]) and all(x == 1 for x in k[1])]
+    return unit + [k for k in keys if k not in unit][::step]
+
+
 def _factorisation(chk, sg, n, sis):
     """dump against dump: the full tau=0 chain's E[I](t), E[S](t) equal the sum of one-node survival functions"""
     worst = 0.0
@@ -385,11 +402,11 @@ def clause3(chk):
     chk.part("clause3 entry-point table", entry_points=len(table), graph_taking=len(gtable), numeric_ic=len(bases))
     tasks = []
     keys3 = _graph_keys(emitted[False], 3, tier, False, False)
-    if tier == "quick":      # the unit-weight graphs and every second weighted one
-        unit = [k for k in keys3 if all(x in (0, 1) for x in k[0]) and all(x == 1 for x in k[1])]
-        keys3 = unit + [k for k in keys3 if k not in unit][::2]
-    doms = [(3, emitted[False], keys3),
-            (4, sg4, _graph_keys(sg4, 4, tier, True, tier == "quick"))]
+    keys4 = _graph_keys(sg4, 4, tier, True, tier == "quick")
+    if tier == "quick":      # the unit-weight graphs, every sixth weighted one; 4-node representatives with gamma = 1 only
+        keys3 = _quick_subset(keys3, 6)
+        keys4 = [k for k in keys4 if k[3] == 2]
+    doms = [(3, emitted[False], keys3), (4, sg4, keys4)]
     for n, sg, keys in doms:
         for key in keys:
             for nm, ps in sorted(gtable.items()):
@@ -573,9 +590,8 @@ def clause4(chk):
             chk.violation("spec|NetEpi gam=0: emitted SIS and SIR graphs differ|N=%d" % n, "emitted transition graphs differ", {"clause": 4, "n": n})
         chk.part("clause4 emitted graphs equal (gam=0)", keys=len(a), transitions=sum(len(l) for d in a.values() for l in d.values()))
         keys = _graph_keys(sgs[True], n, tier, n == 4, n == 4 and tier == "quick")
-        if n == 3 and tier == "quick":
-            unit = [k for k in keys if all(x in (0, 1) for x in k[0]) and all(x == 1 for x in k[1])]
-            keys = unit + [k for k in keys if k not in unit][::2]
+        if tier == "quick":
+            keys = _quick_subset(keys, 6) if n == 3 else [k for k in keys if k[2] == 2]
         doms.append((n, sgs[True], keys))
     table = K.ode_table()
     fams = K.families(table)
